@@ -126,6 +126,10 @@ class Elem:
             return fdtdx_disp.LorentzPole(resonance_frequency=p["w0"], damping=p["g"], delta_epsilon=p["de"], **kw)
         if self.kind == "drude":
             return fdtdx_disp.DrudePole(plasma_frequency=p["wp"], damping=p["g"], **kw)
+        if any(isinstance(p[k], tuple) for k in ("A", "phi", "Om", "Ga")):
+            # per-axis critical-point pole: a different (pole, residue) pair on every axis
+            per = [fdtdx_disp.CCPRPole.from_critical_point(amplitude=_ax3(p["A"])[a], phase=_ax3(p["phi"])[a], resonance_frequency=_ax3(p["Om"])[a], damping=_ax3(p["Ga"])[a]) for a in range(3)]
+            return fdtdx_disp.CCPRPole(pole=tuple(complex(x.pole) for x in per), residue=tuple(complex(x.residue) for x in per))
         pole = fdtdx_disp.CCPRPole.from_critical_point(amplitude=p["A"], phase=p["phi"], resonance_frequency=p["Om"], damping=p["Ga"])
         if self.orient is not None:
             pole = fdtdx_disp.CCPRPole(pole=pole.pole, residue=pole.residue, orientation=tuple(self.orient))
@@ -137,7 +141,7 @@ class Elem:
             return chi_lorentz(w, _ax3(p["w0"])[a], _ax3(p["g"])[a], _ax3(p["de"])[a])
         if self.kind == "drude":
             return chi_drude(w, _ax3(p["wp"])[a], _ax3(p["g"])[a])
-        return chi_cp(w, p["A"], p["phi"], p["Om"], p["Ga"])
+        return chi_cp(w, _ax3(p["A"])[a], _ax3(p["phi"])[a], _ax3(p["Om"])[a], _ax3(p["Ga"])[a])
 
     def chi_tensor(self, w):
         if self.orient is not None:
@@ -151,13 +155,12 @@ class Elem:
             return _ax3(p["w0"])
         if self.kind == "drude":
             return (0.0, 0.0, 0.0)
-        r = math.hypot(p["Om"], p["Ga"])
-        return (r, r, r)
+        return tuple(math.hypot(_ax3(p["Om"])[a], _ax3(p["Ga"])[a]) for a in range(3))
 
     def gamma_axes(self):
         p = self.params
         if self.kind == "cp":
-            return (2 * p["Ga"],) * 3
+            return tuple(2 * _ax3(p["Ga"])[a] for a in range(3))
         return _ax3(p["g"])
 
     def active_axes(self):
@@ -166,7 +169,7 @@ class Elem:
             return tuple(_ax3(p["de"])[a] != 0.0 and _ax3(p["w0"])[a] != 0.0 for a in range(3))
         if self.kind == "drude":
             return tuple(_ax3(p["wp"])[a] != 0.0 for a in range(3))
-        return (p["A"] != 0.0 and p["Om"] != 0.0,) * 3
+        return tuple(_ax3(p["A"])[a] != 0.0 and _ax3(p["Om"])[a] != 0.0 for a in range(3))
 
     def desc(self):
         return dict(kind=self.kind, form=self.form, params={k: (list(v) if isinstance(v, tuple) else v) for k, v in self.params.items()}, orientation=self.orient)
@@ -206,6 +209,9 @@ def elements(kind, x0, g, dt):
                 out.append(Elem(kind, "iso", dict(A=A, phi=phi, Om=Om, Ga=Ga)))
         for d in DIRS[1:]:
             out.append(Elem(kind, "oriented", dict(A=0.5, phi=0.0, Om=Om, Ga=Ga), orient=d))  # phi=0: purely imaginary residue
+        # per-axis critical points: different damping, resonance, amplitude and phase (residue with a real part) on every axis
+        out.append(Elem(kind, "axis-all", dict(A=(0.5, 1.3, 0.2), phi=(-math.pi / 4, 0.7, 0.0), Om=(Om, Om / 2, Om / 3), Ga=(Ga, Ga / 3, 0.8 * Ga))))
+        out.append(Elem(kind, "axis-damping", dict(A=0.5, phi=-math.pi / 4, Om=Om, Ga=(Ga, 0.55 * Ga, Ga / 5))))
     return out
 
 
